@@ -86,6 +86,15 @@ def run(pid, tier, t0):
              "functions_in_facts": len(ctx.F.fns), "impls_in_facts": len(ctx.F.impls),
              "checker_cmd": "./hlv check %s --tier %s" % (pid, tier),
              "trusted_base": BASE_ASSUME}
+    uses_alg = any(getattr(r, "__name__", "").startswith("rule_") and getattr(r, "__module__", "") == __name__ and
+                   r.__name__ in ("rule_Y1", "rule_Y2", "rule_Y3", "rule_E5", "rule_X2", "rule_Q3", "rule_Q4") for r in rules)
+    if uses_alg:
+        import rules_alg
+        extra["exhaustive"] = False
+        extra["bounds"] = {"list_length_max": rules_alg.tier_n(), "retries_max": rules_alg.RETRIES,
+                           "injected_panics_max": rules_alg.tier_faults(),
+                           "note": "rules Y2/Y3/E5/X2/Q3/Q4 enumerate every abstract path within these bounds; all other rules "
+                                   "quantify over every function/impl/path of the crate"}
     return common.finish(pid, tier, results, t0, expl, BASE_ASSUME, extra)
 
 
@@ -193,7 +202,8 @@ prop("C09",
      [A("rule_Y1"), A("rule_Y2"), A("rule_Y3"), st.rule_E2, cg.rule_E3],
      "Y1 exactly one blocking acquisition site per pass, every other acquisition of the pass is a try; Y2 every path from a failed "
      "try back to the blocking site passes through the rollback of the prefix and the guarded release of the first lock; Y3 the "
-     "held set is empty whenever the blocking site is reached (held-set abstract interpretation over index intervals).",
+     "held set is empty whenever the blocking site is reached (k-bounded held-set analysis: list length <= 3 quick / 4 thorough, <= 2 "
+     "retries, every try outcome and at most one (thorough: two) injected panics).",
      "'nevertheless finishes': liveness under contention (the authors document possible livelock).")
 
 prop("C10",
